@@ -142,7 +142,13 @@ class path_converters(str_converters):
     def from_words(self, words, master):
         path = str_from_words(words=words)
         if path not in (None, freephil.Auto):
-            path = os.path.expanduser(path)
+            try:
+                path = os.path.expanduser(path)
+            except ValueError as e:  # e.g. a null byte after "~"
+                raise RuntimeError(
+                    'Error interpreting %s="%s" as a path: %s%s'
+                    % (master.full_path(), path, e, words[0].where_str())
+                )
         return path
 
 
